@@ -70,6 +70,7 @@ type corsCase struct {
 }
 
 func TestC19(t *testing.T) {
+	reusedRC := &fasthttp.RequestCtx{}
 	o := newOut(t)
 	defer o.close()
 	type built struct {
@@ -159,7 +160,9 @@ func TestC19(t *testing.T) {
 			kv = append(kv, "Access-Control-Request-Private-Network", "true")
 		}
 		*b.ran = false
-		rc := doReqH(b.h, cs.Req.Method, "/", kv...)
+		// every case is served on the same RequestCtx, as the requests of one keep-alive connection are: header buffers are recycled
+		rc := reusedRC
+		doReqReuse(rc, b.h, cs.Req.Method, "/", kv...)
 		hdr := func(k string) string { return string(rc.Response.Header.Peek(k)) }
 		vary := strings.ToLower(strings.Join(peekAll(rc, "Vary"), ","))
 		var bad []string
